@@ -184,7 +184,16 @@ def with_zero_fp_keys(ctx, rng, cfg, keys, p=0.2):
     """with probability p (and only for the library's own hash, byte-sized fingerprints): the universe gets 1..3 keys whose raw fingerprint
     is 0 - the value that marks an empty slot in the export format, so the library stores another one (it documents 1).  They form ONE
     fingerprint class like any other colliding keys; keys with raw fingerprint 1 are left out so that the substitute meets no other key."""
-    if cfg.hf is not None or cfg.err_bits or rng.random() >= p:
+    if cfg.hf is not None or cfg.err_bits:
+        return keys
+    if cfg.counting and rng.random() < 0.3:
+        # (counting filter) keys with the SMALLEST fingerprints - 2, 3, 4: numbers that also occur as bin counts - among ordinary ones
+        cfg.finger_size = 1
+        small = [k for k in (f"s{i}" for i in range(1500)) if cfg.raw_fp(k) in (2, 3, 4)][: rng.randint(2, 4)]
+        keys = [k for k in keys if cfg.raw_fp(k) != 0][: max(2, len(keys) - len(small))] + small
+        rng.shuffle(keys)
+        ctx.count("universes_with_fingerprints_as_small_as_bin_counts")
+    if rng.random() >= p:
         return keys
     cfg.finger_size = 1
     zs = [k for k in (f"z{i}" for i in range(3000)) if cfg.raw_fp(k) == 0][: rng.randint(1, 3)]
